@@ -196,28 +196,50 @@ def rules(ctx: Ctx) -> None:
     if stsql is None:
         raise AnalysisError("split_tsql not found")
     ctx.touched(stsql)
-    tloops = [n for n in prog.walk_fn(stsql) if isinstance(n, ast.For)]
     rets = [n for n in prog.walk_fn(stsql) if isinstance(n, ast.Return) and n.value is not None]
     ok_t = False
     why = "unknown shape"
-    if len(tloops) == 1 and len(rets) == 1:
-        TL = tloops[0]
-        seg = u(TL.target)
-        apps = [k for k in ast.walk(TL) if isinstance(k, ast.Call) and isinstance(k.func, ast.Attribute) and k.func.attr == "append"]
+    if len(rets) == 1 and isinstance(rets[0].value, ast.Name):
+        rname = rets[0].value.id
+        # every statement that adds to the returned list
+        apps = [k for k in prog.walk_fn(stsql) if isinstance(k, ast.Call) and isinstance(k.func, ast.Attribute) and k.func.attr in ("append", "extend", "insert") and isinstance(k.func.value, ast.Name) and k.func.value.id == rname]
+        other_defs = [kind for kind, node in prog.local_defs(stsql, rname) if not (kind == "assign" and isinstance(node.value, ast.List) and not node.value.elts)]
         tcfg = flow(prog, stsql).cfg
-        if len(apps) == 1 and isinstance(rets[0].value, ast.Name) and u(apps[0].func.value) == rets[0].value.id:
-            lid = next(c.id for c in tcfg.nodes.values() if c.kind == "for" and c.ast is TL)
-            aid = tcfg.node_for(apps[0])
-            starts = [b for b in tcfg.g.successors(lid) if tcfg.g[lid][b].get("label") and tcfg.g[lid][b]["label"][1] is True]
-            uncond = not any(b != aid and tcfg.reach(b, lid, avoid=[aid]) for b in starts)
-            text_ok = u(apps[0].args[0]) == f"{seg}.raw"
-            iter_ok = isinstance(TL.iter, ast.Call) and "_list_specific_statement_segment" in u(TL.iter.func) and u(TL.iter.args[0]) == stsql.params()[1]
-            ok_t = uncond and text_ok and iter_ok
-            why = "" if ok_t else f"append unconditional={uncond}, text={text_ok}, iterates all segments of the input={iter_ok}"
+        psql = stsql.params()[1]
+
+        def from_parse_of_input(e: ast.AST) -> bool:
+            """the iterated list derives from parsing the whole input text"""
+            for k in prog.influences(stsql, e):
+                if isinstance(k, ast.Call) and isinstance(k.func, ast.Attribute) and k.func.attr == "parse_string" and k.args:
+                    if any(isinstance(x, ast.Name) and x.id == psql for x in prog.value_sources(stsql, k.args[0])):
+                        return True
+            return False
+
+        if other_defs:
+            why = f"`{rname}` is re-bound ({other_defs})"
+        elif len(apps) == 1 and apps[0].func.attr == "append":
+            TL = next((a for a in prog.ancestors(apps[0]) if isinstance(a, ast.For)), None)
+            if TL is None:
+                why = "the entry is not added in a loop over the statement segments"
+            else:
+                seg = u(TL.target)
+                lid = tcfg.node_for(TL)
+                aid = tcfg.node_for(apps[0])
+                starts = [b for b in tcfg.g.successors(lid) if tcfg.g[lid][b].get("label") and tcfg.g[lid][b]["label"][1] is True]
+                uncond = not any(b != aid and tcfg.reach(b, lid, avoid=[aid]) for b in starts)
+                text_ok = u(apps[0].args[0]) == f"{seg}.raw"
+                iter_ok = from_parse_of_input(TL.iter)
+                ok_t = uncond and text_ok and iter_ok
+                why = "" if ok_t else f"append unconditional={uncond}, text={text_ok}, iterates all segments of the input={iter_ok}"
+        elif len(apps) == 1 and apps[0].func.attr == "extend" and apps[0].args and isinstance(apps[0].args[0], (ast.ListComp, ast.GeneratorExp)):
+            comp = apps[0].args[0]
+            g0 = comp.generators[0]
+            ok_t = len(comp.generators) == 1 and not g0.ifs and u(comp.elt) == f"{u(g0.target)}.raw" and from_parse_of_input(g0.iter)
+            why = "" if ok_t else "the comprehension filters or transforms the statement segments"
         else:
-            why = f"the returned value `{u(rets[0].value)}` is not the list that receives one entry per statement segment"
+            why = f"`{rname}` receives entries at {len(apps)} sites"
     elif rets:
-        why = f"the returned value `{u(rets[0].value)[:50]}` is not built by one append per statement segment"
+        why = f"the returned value `{u(rets[0].value)[:50]}` is not a list built by one append per statement segment"
     ctx.ob("R05.4", "tsql-splitter:one-entry-per-segment-in-order", ok_t, stsql.loc(), "split_tsql returns one entry per statement segment (repeats included), in order" + (f" - {why}" if why else ""))
 
     # ---- R05.3 independence -------------------------------------------------------------------
